@@ -118,7 +118,7 @@ theorem C18_hint_mergeOut (w : World) (dir : String) (g : GDir) (n : Nat) (gm vi
     `total − reclaim` (= live bytes), and map every key to the same value. -/
 theorem C18_open_paths (s : St) (db : DB) (g : GDir) (n : Nat) (gm vis : GDir) (cfg₁ cfg₂ : Cfg) (ks₁ ks₂ : List Nat)
     (hdb : s.db = some db) (hinv : Inv s db g) (hmo : MergeOutW s.world db.dir g n gm vis)
-    (hF : HintFits gm) (h₁ : cfg₁.fileSize > 0) (h₂ : cfg₂.fileSize > 0) :
+    (hF : HintFits gm) (h₁ : cfg₁.Valid) (h₂ : cfg₂.Valid) :
     ∃ s₁ db₁ s₂ db₂,
       openDB ⟨C07.crashes (close s).1.world db.dir ks₁, none⟩ db.dir cfg₁ = (s₁, .ok) ∧ s₁.db = some db₁ ∧
       openDB ⟨C07.crashes (close s).1.world db.dir ks₂, none⟩ db.dir cfg₂ = (s₂, .ok) ∧ s₂.db = some db₂ ∧
